@@ -191,6 +191,9 @@ def run(prog, rep):
     rep.rule('R17.7', 'the "loaded" flag that reaches the validators: optional / unique_ptr / shared_ptr loaders return false on every path that '
                       'leaves the wrapper empty (explicit null, failed load) - Required() fails for a field that holds nothing', floor=6)
     _c18.check_wrapper_results(prog, rep, 'R17.7')
+    # "loaded" is true only for the field's own key: a key comparison that accepts a different key makes Required() pass for an absent field
+    from rules import keycmp as _keycmp
+    _keycmp.check_array_key(prog, rep, 'R17.11')
     rep.rule('R17.1', 'VisitArgs applies the visitor to every validator once, in declaration order; the visitor forwards a message to AddValidationError', floor=8)
     rep.rule('R17.2', 'AddValidationError: append for an existing path, one-element list for a new path; early throw when the number of failing '
                       'fields reaches maxValidationErrors (> 0)', floor=3)
